@@ -1,4 +1,6 @@
+import os
 import shutil
+import stat
 from typing import Tuple, Callable
 
 from exactly_lib.execution.configuration import ExecutionConfiguration
@@ -60,5 +62,29 @@ def execute(test_case: TestCase,
     finally:
         if not is_keep_sandbox:
             if ret_val is not None and ret_val.has_sds:
-                shutil.rmtree(str(ret_val.sds.root_dir),
-                              ignore_errors=True)
+                _remove_sandbox(str(ret_val.sds.root_dir))
+
+
+def _remove_sandbox(root_dir: str):
+    """
+    Removes the sandbox, also when the test case has removed permissions from parts of it
+    (e.g. a directory made read-only cannot be emptied).
+    """
+
+    retried = set()
+
+    def give_owner_all_permissions_and_retry(function, path, exc_info):
+        if path in retried:
+            return
+        retried.add(path)
+        try:
+            os.chmod(os.path.dirname(path), stat.S_IRWXU)
+            if os.path.isdir(path) and not os.path.islink(path):
+                os.chmod(path, stat.S_IRWXU)
+                shutil.rmtree(path, onerror=give_owner_all_permissions_and_retry)
+            else:
+                os.unlink(path)
+        except OSError:
+            pass
+
+    shutil.rmtree(root_dir, onerror=give_owner_all_permissions_and_retry)
